@@ -5,13 +5,12 @@
  "enforce": ["CRC32C_Update"],
  "replace": ["crc_ref_byte", "crc_ref_word"],
  "annotate": ["alg/crc32c.c"],
- "defines": ["VERIF_HALLOC", "CRC_MAXOBJ=64"],
- "thorough_defines": ["CRC_MAXOBJ=1024"],
+ "defines": ["VERIF_HALLOC", "CRC_MAXOBJ=0xffffffff"],
  "expect_loops": ["CRC32C_Update"],
  "backend": "cvc5",
  "timeout": 600,
  "assumptions": ["tables initialised (ghost flag g_crc_tables_ok = CRC32C_Init was called); the table facts enter through the lemma contracts crc_ref_byte / crc_ref_word, enforced in crc32c_lemma_* with the tables computed by the real init()",
-                 "buffer object size <= CRC_MAXOBJ bytes, every alignment 0..7 inside the object (symbolic object bound only; both loops are closed by loop contracts)"]
+                 "buffer object size < 2^32 bytes (CRC_MAXOBJ), every alignment 0..7 inside the object; both loops are closed by loop contracts"]
 }
 */
 /*
@@ -30,7 +29,7 @@ h_crc32c_update(void)
 	CRC32C_CTX * ctx = malloc(sizeof(CRC32C_CTX));
 	IN(size_t, len); IN(size_t, off);
 	__CPROVER_assume(len <= CRC_MAXOBJ && off < 8);
-	IN_BYTES(obj, len + off, CRC_MAXOBJ + 8);
+	IN_BYTES(obj, len + off, (size_t)CRC_MAXOBJ + 8);
 	__CPROVER_assume(ctx != NULL);
 	const uint8_t * buf = obj + off;
 
